@@ -184,3 +184,14 @@ void epi5(void) {
 #endif
 }
 #endif
+#if SCEN == 6      /* progress: pop_all alone (no iteration) */
+void c1(void) {
+#if KIND == 0
+  struct cds_wfs_head *h = __cds_wfs_pop_all(&S);
+#else
+  struct cds_lfs_head *h = __cds_lfs_pop_all(&S);
+#endif
+  rt_gset(HG_USER, h != 0);
+}
+void epilogue(void) { }
+#endif
